@@ -268,4 +268,167 @@ theorem view_handleFrame {s : Srv} (h : WF s) (dec : Str → Except Err (Packet 
       | other => rfl
   exact key _ (frameCase dec cfg s t v)
 
+/-! ### what equal views mean for a bystander -/
+
+theorem getRooms_filter {r : Rooms.St} {t : Eio} {sid : Sid} (h : onT r t sid = false) (ns : Ns) :
+    getRooms (r.filter (fun e => e.eio != t)) ns sid = getRooms r ns sid := by
+  have hno : ∀ e ∈ r, e.sid = sid → e.eio ≠ t := by
+    intro e he h1 h2
+    have := onT_iff.mpr ⟨e, he, h1, h2⟩
+    rw [h] at this; cases this
+  unfold getRooms
+  induction r with
+  | nil => rfl
+  | cons a r ih =>
+    have ih' := ih (by
+      rw [Bool.eq_false_iff]; intro hc
+      obtain ⟨e, he, h1, h2⟩ := onT_iff.mp hc
+      exact hno e (List.mem_cons_of_mem _ he) h1 h2)
+      (fun e he => hno e (List.mem_cons_of_mem _ he))
+    simp only [List.filter_cons]
+    by_cases ha : a.eio = t
+    · have hs : ¬ (a.ns = ns ∧ a.sid = sid) := fun hq => hno a List.mem_cons_self hq.2 ha
+      simp only [ha, bne_self_eq_false, Bool.false_eq_true, if_false, List.filterMap_cons, hs]
+      exact ih'
+    · have : (a.eio != t) = true := by simp [ha]
+      simp only [this, if_true, List.filterMap_cons]
+      rw [ih']
+
+theorem eioOf_filter {r : Rooms.St} {t : Eio} {sid : Sid} (h : onT r t sid = false) (ns : Ns) :
+    eioOf (r.filter (fun e => e.eio != t)) ns sid = eioOf r ns sid := by
+  have hno : ∀ e ∈ r, e.sid = sid → e.eio ≠ t := by
+    intro e he h1 h2
+    have := onT_iff.mpr ⟨e, he, h1, h2⟩
+    rw [h] at this; cases this
+  unfold eioOf
+  congr 1
+  clear h
+  induction r with
+  | nil => rfl
+  | cons a r ih =>
+    have ih' := ih (fun e he => hno e (List.mem_cons_of_mem _ he))
+    simp only [List.filter_cons]
+    by_cases ha : a.eio = t
+    · have hs : ¬ (a.ns = ns ∧ a.room = none ∧ a.sid = sid) :=
+        fun hq => hno a List.mem_cons_self hq.2.2 ha
+      simp only [ha, bne_self_eq_false, Bool.false_eq_true, if_false, List.find?_cons, hs,
+        decide_false]
+      exact ih'
+    · have : (a.eio != t) = true := by simp [ha]
+      simp only [this, if_true, List.find?_cons]
+      rw [ih']
+
+theorem ctrOf_filter_onT {c : List (Sid × Nat)} {r : Rooms.St} {t : Eio} {sid : Sid}
+    (h : onT r t sid = false) : ctrOf (c.filter (fun x => !onT r t x.1)) sid = ctrOf c sid := by
+  induction c with
+  | nil => rfl
+  | cons a c ih =>
+    simp only [List.filter_cons]
+    by_cases ha : a.1 = sid
+    · have : (!onT r t a.1) = true := by rw [ha, h]; rfl
+      rw [if_pos this, ctrOf_cons, ctrOf_cons, if_pos ha, if_pos ha]
+    · by_cases hb : (!onT r t a.1) = true
+      · simp only [hb, if_true, ctrOf_cons, ha, if_false]; exact ih
+      · simp only [hb, if_false, ctrOf_cons, ha]; exact ih
+
+theorem cbs_filter_onT {c : List (Sid × Nat × CbTok)} {r : Rooms.St} {t : Eio} {sid : Sid}
+    (h : onT r t sid = false) :
+    (c.filter (fun x => !onT r t x.1)).filter (fun x => x.1 == sid) = c.filter (fun x => x.1 == sid) := by
+  rw [List.filter_filter]
+  apply List.filter_congr
+  intro x _
+  by_cases hx : x.1 = sid
+  · simp [hx, h]
+  · simp [hx]
+
+theorem sessGet_filter {l : List (Eio × Ns × J)} {t t' : Eio} (hne : t' ≠ t) (ns : Ns) :
+    ((l.filter (fun e => e.1 != t)).find? (fun e => e.1 = t' ∧ e.2.1 = ns)) =
+      l.find? (fun e => e.1 = t' ∧ e.2.1 = ns) := by
+  induction l with
+  | nil => rfl
+  | cons a l ih =>
+    simp only [List.filter_cons]
+    by_cases ha : a.1 = t
+    · have hs : ¬ (a.1 = t' ∧ a.2.1 = ns) := fun hq => hne (hq.1.symm.trans ha)
+      simp only [ha, bne_self_eq_false, Bool.false_eq_true, if_false, List.find?_cons]
+      rw [ih]
+      have : decide (t = t' ∧ a.2.1 = ns) = false := decide_eq_false (fun hq => hne hq.1.symm)
+      rw [this]
+    · have : (a.1 != t) = true := by simp [ha]
+      simp only [this, if_true, List.find?_cons]
+      rw [ih]
+
+/-- Two states with the same view: every public query about a session that is not on `t` — its
+    rooms, its transport, its outstanding callbacks, its ack counter — and about the stored
+    sessions of every other transport gives the same answer. -/
+theorem bystander_of_view {t : Eio} {s s' : Srv} (hv : view t s' = view t s) {sid : Sid}
+    (h1 : onT s.rooms t sid = false) (h2 : onT s'.rooms t sid = false) :
+    (∀ ns, getRooms s'.rooms ns sid = getRooms s.rooms ns sid) ∧
+    (∀ ns, eioOf s'.rooms ns sid = eioOf s.rooms ns sid) ∧
+    s'.cbs.filter (fun x => x.1 == sid) = s.cbs.filter (fun x => x.1 == sid) ∧
+    ctrOf s'.ctr sid = ctrOf s.ctr sid ∧
+    (∀ t' ns, t' ≠ t → sessGet s' t' ns = sessGet s t' ns) := by
+  have v1 : (view t s').rooms = (view t s).rooms := by rw [hv]
+  have v2 : (view t s').cbs = (view t s).cbs := by rw [hv]
+  have v3 : (view t s').ctr = (view t s).ctr := by rw [hv]
+  have v7 : (view t s').sess = (view t s).sess := by rw [hv]
+  simp only [view] at v1 v2 v3 v7
+  refine ⟨?_, ?_, ?_, ?_, ?_⟩
+  · intro ns; rw [← getRooms_filter h2, v1, getRooms_filter h1]
+  · intro ns; rw [← eioOf_filter h2, v1, eioOf_filter h1]
+  · rw [← cbs_filter_onT h2, v2, cbs_filter_onT h1]
+  · rw [← ctrOf_filter_onT h2, v3, ctrOf_filter_onT h1]
+  · intro t' ns hne
+    unfold sessGet
+    rw [← sessGet_filter hne, v7, sessGet_filter hne]
+
+/-! ### a session id never moves to another transport -/
+
+/-- `sidName k` is allocated and every room entry it has is on transport `t'` -/
+def BoundTo (k : Nat) (t' : Eio) (s : Srv) : Prop :=
+  k < s.nextSid ∧ ∀ e ∈ s.rooms, e.sid = sidName k → e.eio = t'
+
+theorem BoundTo.prim {k : Nat} {t' : Eio} {s s' : Srv} (_hw : WF s) (p : Prim s s')
+    (h : BoundTo k t' s) : BoundTo k t' s' := by
+  obtain ⟨hk, hb⟩ := h
+  cases p with
+  | core hq => have := core_fields hq; exact ⟨this.nextSid ▸ hk, this.rooms ▸ hb⟩
+  | disc _ hq =>
+    have := core_fields hq
+    refine ⟨this.nextSid ▸ hk, ?_⟩
+    rw [this.rooms]
+    intro e he
+    exact hb e (List.mem_filter.mp he).1
+  | connect hc =>
+    refine ⟨Nat.lt_succ_of_lt hk, ?_⟩
+    intro e he hs
+    rcases (mem_connect hc e).mp he with h1 | rfl | rfl
+    · exact hb e h1 hs
+    · have := sidName_inj hs; omega
+    · have := sidName_inj hs; omega
+  | rooms _ hsub _ =>
+    refine ⟨hk, ?_⟩
+    intro e he hs
+    obtain ⟨e', he', h1, _, h3⟩ := hsub e he
+    rw [← h3]; exact hb e' he' (h1.trans hs)
+  | sess ns v _ => exact ⟨by unfold sessSet; split <;> exact hk, by unfold sessSet; split <;> exact hb⟩
+  | bumpCall | callDone _ _ | cbsFilter _ | addCb _ _ _ | binbuf _ | eioConnect _ | drop _ =>
+    exact ⟨hk, hb⟩
+
+theorem boundTo_of_eioOf {s : Srv} (h : WF s) {ns : Ns} {sid : Sid} {t' : Eio}
+    (he : eioOf s.rooms ns sid = some t') : ∃ k, sid = sidName k ∧ BoundTo k t' s := by
+  obtain ⟨k, hk, hs⟩ := h.sidAlloc _ (eioOf_some_mem he)
+  simp only at hs
+  refine ⟨k, hs, hk, ?_⟩
+  intro e hm heq
+  have hns := h.sidNs e hm _ (eioOf_some_mem he) (heq.trans hs.symm)
+  exact h.rooms.sidEio e hm _ (eioOf_some_mem he) hns (heq.trans hs.symm)
+
+theorem not_onT_of_boundTo {k : Nat} {t t' : Eio} {s : Srv} (h : BoundTo k t' s) (hne : t' ≠ t) :
+    onT s.rooms t (sidName k) = false := by
+  rw [Bool.eq_false_iff]
+  intro hc
+  obtain ⟨e, he, h1, h2⟩ := onT_iff.mp hc
+  exact hne ((h.2 e he h1).symm.trans h2)
+
 end Sio.Server
